@@ -112,3 +112,22 @@ Definition clamp_order (requested op_size : nat) : nat := if Nat.ltb op_size req
    [verbose] only controls logging. *)
 Definition effective_n (compute_all verbose : bool) (n n_rel : nat) : option nat :=
   if compute_all then Some n_rel else if Nat.ltb n_rel n then None else Some n.
+
+(* _quadrature_from_eigh with discard_eigs_below = tol (stochastic_logdet_from_lanczos -> _gauss_unit):
+     evals = jnp.where(evals < threshold, jnp.nan, evals);  terms = first_evec_components**2 * f(evals)
+     return jnp.nansum(terms)
+   i.e. nodes below the threshold (the zero eigenvalues of a tridiagonal that was zero-padded after a Lanczos
+   breakdown) are left out.  [nodes] = (eigenvalue, first eigenvector component, f(eigenvalue)). *)
+Fixpoint gauss_sum (tol : Q) (nodes : list (Q * Q * Q)) : Q :=
+  match nodes with
+  | [] => 0
+  | (ev, c, fv) :: r => (if Qle_bool tol ev then c * c * fv else 0) + gauss_sum tol r
+  end.
+
+(* trace_log_space: "signal" | "data" | "auto"; auto = data space iff the data-space shapes are known and
+   n_data_points <= metric_size.  The analytic prior term adds  sum 1 / (eigenvalue + [data space])  *)
+Inductive tl_space := SpSignal | SpData | SpAuto.
+Definition use_data_space (sp : tl_space) (n_data metric_size : nat) : bool :=
+  match sp with SpSignal => false | SpData => true | SpAuto => Nat.leb n_data metric_size end.
+Definition trace_inv_exact (data_space : bool) (evs : list Q) : Q :=
+  qsum (map (fun ev => / (ev + (if data_space then 1 else 0))) evs).
